@@ -317,7 +317,7 @@ pub fn gen_srv_histories(out: &mut Out, rng: &mut Rng, n: usize) {
                     // an answer, a refusal or nothing)
                     svc.push(match rng.below(3) {
                         0 => Svc::Reply(Response::ReadCoils(vec![true; 8])),
-                        1 => Svc::Exception(tokio_modbus::ExceptionCode::new(rng.exc_code())),
+                        1 => Svc::Exception(crate::wire::ex_from_spec(rng.exc_code())),
                         _ => Svc::Decline,
                     });
                 }
@@ -346,7 +346,7 @@ pub fn gen_srv_histories(out: &mut Out, rng: &mut Rng, n: usize) {
                     data.extend(frame(kind, tid, unit, &b));
                     svc.push(match rng.below(8) {
                         0 => Svc::Decline,
-                        1 => Svc::Exception(tokio_modbus::ExceptionCode::new(rng.exc_code())),
+                        1 => Svc::Exception(crate::wire::ex_from_spec(rng.exc_code())),
                         2 => Svc::Reply(gen_response(rng, None)),
                         _ => Svc::Reply(answer_for(rng, &req)),
                     });
